@@ -277,3 +277,29 @@ def r6(c):
     g = P.outer(GET_REPLY)
     c.ob('get_reply/handler-type', 'dyn rodbus::server::handler::RequestHandler' in g.sig_in[2] and g.sig_in[2].startswith('&mut'),
          'get_reply receives the handler itself (&mut dyn RequestHandler), not the mutex', g.sig_in[2], loc_of(g))
+
+
+# ---- clauses shared with C01 / C17 (same rule bodies, reported under C02's keys) ---------------------------
+from rules import c01 as _c01, c17 as _c17
+
+
+@rule('C02', 'R02.7', 'within protocol limits: the quantity limits of C01/R01.4 guard every request that can reach a handler')
+def r7(c):
+    _c01.r4(c)
+
+
+@rule('C02', 'R02.8', 'exact length and range validity (C01/R01.3, R01.5): malformed requests never parse')
+def r8(c):
+    _c01.r3(c)
+    _c01.r5(c)
+
+
+@rule('C02', 'R02.9', 'addressing: Broadcast destinations come only from the RTU parser for address 0 (C17/R17.5); TCP frames always name a unit',
+      needs=lambda P: P.has('rodbus::serial::frame::RtuParser::parse'))
+def r9(c):
+    _c17.r5(c)
+    P = c.P
+    b = P.fn('rodbus::common::frame::FrameHeader::new_tcp_header')
+    ag = [s for _, s in b.aggregates('rodbus::common::frame::FrameDestination')]
+    ok = len(ag) == 1 and ag[0]['rv']['variant'] == 'UnitId' and q.is_name(b, ag[0]['rv']['a'][0], 'unit_id')
+    c.ob('new_tcp_header', ok, 'new_tcp_header always builds FrameDestination::UnitId(unit_id)', str([a['rv']['variant'] for a in ag]), loc_of(b))
